@@ -7,6 +7,7 @@
 import BespokeVerif.Model.Scan
 import BespokeVerif.Lemmas.Scan
 import BespokeVerif.Lemmas.Parse
+import BespokeVerif.Lemmas.ParseRoundTrip
 namespace BV.C18
 open BV
 
@@ -252,6 +253,17 @@ theorem text_consecutive_instructions (cfg : PCfg) (f : Nat) (w ops w2 r2 : List
           let more ← parseStmts cfg f (w2 ++ r2)
           .ok (.isa (lowerS w) fs :: more)) :=
   parseStmts_isa_front cfg f w ops w2 r2 hw hwdot hmn hops hop0 hequ hno hw2 hr2 hm2 hrt
+
+/-- render / parse round trip, origin: `.org` followed by the decimal spelling of ANY address is read
+    back as the origin statement with exactly that address (no zone) -/
+theorem text_roundtrip_org_decimal (cfg : PCfg) (f : Nat) (n : Nat) :
+    parseStmts cfg (f + 2) (".org ".toList ++ Nat.toDigits 10 n) = .ok [.org (.num n) none] :=
+  parseStmts_org_decimal cfg f n
+
+/-- render / parse round trip, data: `.byte` followed by the decimal spelling of ANY value -/
+theorem text_roundtrip_byte_decimal (cfg : PCfg) (f : Nat) (n : Nat) :
+    parseStmts cfg (f + 2) (".byte ".toList ++ Nat.toDigits 10 n) = .ok [.data 1 [.num n]] :=
+  parseStmts_byte_decimal cfg f n
 
 -- the hypotheses are satisfiable: `LDI a,5 Nop` under the mnemonics `ldi`, `nop`
 def exCfg : PCfg := { regs := ["a"], mnemonics := ["ldi", "nop"] }
